@@ -231,6 +231,11 @@ def write_replay(prop, spec, v, res, farm):
 
 
 def write_evidence(prop, tier, seed, spec, agg, wall, exit_code, known):
+    from .env import repo_path
+
+    if repo_path() != "/repo":
+        # a run against a scratch copy (seeded change) says nothing about /repo
+        return
     os.makedirs(EVIDENCE_DIR, exist_ok=True)
     faults = {k[len("fault."):]: v for k, v in agg.stats.items() if k.startswith("fault.")}
     probes = {k: v for k, v in agg.stats.items() if not k.startswith(("fault.", "op."))}
